@@ -350,6 +350,7 @@ func (r *Runner) MisuseMatrix() *Violation {
 			}
 		}
 
+		var loadedFlushed *txfile.Page
 		pages, err := tx.AllocN(4)
 		if err == nil {
 			// (the page that gets freed is not the last one allocated: freeing the last new page just
@@ -431,6 +432,34 @@ func (r *Runner) MisuseMatrix() *Violation {
 					return fail(rv)
 				}
 			}
+			// a page whose private buffer exists already (Load, edit, MarkDirty) and that is flushed then:
+			// the guards must not be skipped because the buffer is cached
+			if err := extra.Load(); err != nil {
+				return fail(violationf("write-error", c.item, "Load of a new page failed: %v", err))
+			}
+			cont2 := Content(700002, ps)
+			if b, err := extra.Bytes(); err != nil || len(b) != ps {
+				return fail(violationf("write-error", c.item, "Bytes after Load failed: %v", err))
+			} else {
+				copy(b, cont2)
+			}
+			if err := extra.MarkDirty(); err != nil {
+				return fail(violationf("write-error", c.item, "MarkDirty failed: %v", err))
+			}
+			if err := extra.Flush(); err != nil {
+				return fail(violationf("flush-error", c.item, "Flush failed: %v", err))
+			}
+			T.Pages[hFresh+3] = MPage{ID: extra.ID(), Data: cont2}
+			loadedFlushed = extra
+			for _, v := range []*Violation{
+				c.expectKind("Load on a flushed page that had been loaded before", extra.Load, inv...),
+				c.expectKind("MarkDirty on a flushed page that had been loaded before", extra.MarkDirty, inv...),
+				c.expectKind("SetBytes(partial) on a flushed page that had been loaded before", func() error { return extra.SetBytes(make([]byte, 8)) }, inv...),
+			} {
+				if v != nil {
+					return fail(v)
+				}
+			}
 			// freed page
 			freedID := toFree.ID()
 			if err := toFree.Free(); err != nil {
@@ -481,6 +510,16 @@ func (r *Runner) MisuseMatrix() *Violation {
 		// the running transaction continues and commits exactly its model state
 		err = tx.Commit()
 		r.openTx = nil
+		if loadedFlushed != nil {
+			for _, v := range []*Violation{
+				c.expectKind("Load on a page (loaded before) of a finished transaction", loadedFlushed.Load, "TxFinished"),
+				c.expectKind("SetBytes on a page (loaded before) of a finished transaction", func() error { return loadedFlushed.SetBytes(make([]byte, 8)) }, "TxFinished"),
+			} {
+				if v != nil {
+					return v
+				}
+			}
+		}
 		if err != nil {
 			if !r.bounded() {
 				return violationf("commit-error", c.item, "Commit after misuse cells failed: %v", err)
